@@ -40,6 +40,34 @@ func genC01(tier string, seed uint64, emit func(string)) {
 		t := genTree(r, 1+r.Intn(6), 40, lineSafe, big)
 		emit("rt " + t.String())
 	}
+	// sizes around the buffer and table sizes an implementation may use internally: wide arrays (element counts
+	// around 256, 1024, 4096, 65536) and large bulk payloads, also nested one level down
+	widths := []int{255, 256, 257, 1023, 1024, 1025, 4095, 4096, 4097}
+	paySizes := []int{511, 512, 513, 4094, 4095, 4096, 4097, 8192, 65535, 65536, 65537}
+	if tier == "thorough" {
+		widths = append(widths, 65536)
+		paySizes = append(paySizes, 1<<20)
+	}
+	for _, w := range widths {
+		wide := &Node{Kind: 'a'}
+		for i := 0; i < w; i++ {
+			switch i % 3 {
+			case 0:
+				wide.Es = append(wide.Es, &Node{Kind: 'b', P: []byte(strconv.Itoa(i))})
+			case 1:
+				wide.Es = append(wide.Es, &Node{Kind: 'i', P: []byte(strconv.Itoa(i))})
+			default:
+				wide.Es = append(wide.Es, &Node{Kind: 's', P: []byte("x")})
+			}
+		}
+		emit("rt " + wide.String())
+		emit("rt " + (&Node{Kind: 'a', Es: []*Node{{Kind: 'b', P: []byte("k")}, wide, {Kind: 's', P: []byte("OK")}}}).String())
+	}
+	for _, sz := range paySizes {
+		p := bytes.Repeat([]byte{0xa5}, sz)
+		emit("rt " + (&Node{Kind: 'b', P: p}).String())
+		emit("rt " + (&Node{Kind: 'a', Es: []*Node{{Kind: 'b', P: p}, {Kind: 'i', P: []byte("7")}}}).String())
+	}
 	// constructors
 	for _, v := range boundaryInts {
 		emit("ctor int " + strconv.FormatInt(v, 10))
